@@ -82,7 +82,7 @@ class StepOps:
 
     @staticmethod
     def _is_iter(v) -> bool:
-        return isinstance(v, tuple) and v[:1] in (("IT",), ("REPEAT",))
+        return isinstance(v, tuple) and v[:1] in (("IT",), ("REPEAT",), ("ZIP",))
 
     def _new(self, env, items) -> Tuple[str, int]:
         lists = dict(env.get("@lists", {}))
@@ -110,6 +110,30 @@ class StepOps:
             return None if inner is None else [(v[2] + i, x) for i, x in enumerate(inner)]
         return None
 
+    def resolve(self, v, env):
+        """a value with list objects replaced by their contents and ``*x`` entries of tuple
+        displays spliced in (for yields and return values)"""
+        if self._is_list(v):
+            return ("LIST",) + tuple(self.resolve(x, env) for x in self._get(env, v))
+        if isinstance(v, tuple) and v[:1] == ("SEQ",) and len(v) == 2 and isinstance(v[1], tuple):
+            return tuple(self.resolve(x, env) for x in v[1])
+        if isinstance(v, tuple) and v[:1] == ("SET",) and len(v) == 2 and isinstance(v[1], tuple):
+            return ("SET", frozenset(self.resolve(x, env) for x in v[1]))
+        if isinstance(v, tuple) and v[:1] in (("item",), ("IT",), ("REPEAT",), ("ZIP",), ("FN",), ("GLOBAL",), ("exc",), ("*",)):
+            return v
+        if isinstance(v, tuple):
+            out = []
+            for x in v:
+                if isinstance(x, tuple) and len(x) == 2 and x[0] == "*":
+                    inner = self._elements(x[1], env)
+                    if inner is None:
+                        inner = list(x[1]) if isinstance(x[1], tuple) else [UNKNOWN]
+                    out.extend(self.resolve(y, env) for y in inner)
+                else:
+                    out.append(self.resolve(x, env))
+            return tuple(out)
+        return v
+
     def _trace(self, env, *event) -> None:
         env["@trace"] = env.get("@trace", ()) + (tuple(event),)
 
@@ -117,6 +141,16 @@ class StepOps:
         """advance an iterator object: the item, or ("@raise", "StopAsyncIteration")"""
         if it[0] == "REPEAT":
             return it[1]
+        if it[0] == "ZIP":
+            # the library's own (non-strict) zip, by its rule: one item of every source in argument
+            # order; the first exhausted source ends it (items already taken this round are dropped)
+            row = []
+            for sub in it[1]:
+                v = self._pull(sub, env)
+                if isinstance(v, tuple) and v[:1] == ("@raise",):
+                    return v
+                row.append(v)
+            return tuple(row)
         k = it[1]
         pos = dict(env.get("@itpos", {}))
         self._trace(env, "poll", k)
@@ -179,7 +213,16 @@ class StepOps:
             return ("*", ev.eval(e.value, env))
         if isinstance(e, ast.List) and not any(isinstance(x, ast.Starred) for x in e.elts):
             return self._new(env, [ev.eval(x, env) for x in e.elts])
-        if isinstance(e, (ast.ListComp, ast.GeneratorExp)) and len(e.generators) == 1 and not e.generators[0].is_async:
+        if isinstance(e, (ast.ListComp, ast.SetComp, ast.DictComp)) and id(e) in env.get("@comp", {}):
+            # the comprehension's loops were run by the machine (CFG expansion): what was collected
+            got = env["@comp"][id(e)]
+            if isinstance(e, ast.SetComp):
+                return ("SET", tuple(got))
+            if isinstance(e, ast.DictComp):
+                return ("DICT", tuple(got))
+            return self._new(env, got)
+        if isinstance(e, (ast.ListComp, ast.GeneratorExp, ast.SetComp)) and len(e.generators) == 1 \
+                and not e.generators[0].is_async and not any(isinstance(x, ast.Await) for x in ast.walk(e)):
             g = e.generators[0]
             el = self._elements(ev.eval(g.iter, env), env)
             if el is None:
@@ -197,6 +240,8 @@ class StepOps:
                 if keep:
                     out.append(ev.eval(e.elt, env2))
                 env["@lists"] = env2.get("@lists", env.get("@lists", {}))
+            if isinstance(e, ast.SetComp):
+                return ("SET", tuple(out))
             return self._new(env, out) if isinstance(e, ast.ListComp) else ("SEQ", tuple(out))
         if isinstance(e, ast.Subscript):
             base = ev.eval(e.value, env)
@@ -297,12 +342,20 @@ class StepOps:
 
     def visit(self, node, env, ev):
         if node.kind == "yield":
-            v = ev.eval(node.info.get("value"), env)
-            if isinstance(v, tuple) and v[:1] == ("SEQ",):
-                v = v[1]
-            elif self._is_list(v):
-                v = ("LIST",) + tuple(self._get(env, v))
+            v = self.resolve(ev.eval(node.info.get("value"), env), env)
             self._trace(env, "yield", v)
+            return
+        if node.kind == "nop":
+            if node.info.get("note") == "comp-start":
+                comp = dict(env.get("@comp", {}))
+                comp[id(node.ast)] = ()
+                env["@comp"] = comp
+            return
+        if node.kind == "collect":
+            comp = dict(env.get("@comp", {}))
+            vals_ = tuple(ev.eval(x, env) for x in node.info.get("elements", []))
+            comp[id(node.ast)] = comp.get(id(node.ast), ()) + ((vals_ if len(vals_) > 1 else vals_[0]),)
+            env["@comp"] = comp
             return
         if node.kind != "call":
             return
@@ -311,12 +364,13 @@ class StepOps:
         f = call.func
         last = self._resolved(f)
         result: Any = "@none"
-        if last == "anext" and call.args and not call.keywords:
+        if last == "anext" and call.args and all(k.arg == "default" for k in call.keywords):
             it = ev.eval(call.args[0], env)
             if self._is_iter(it):
                 result = self._pull(it, env)
-                if isinstance(result, tuple) and result[:1] == ("@raise",) and len(call.args) == 2:
-                    result = ev.eval(call.args[1], env)
+                default = call.args[1] if len(call.args) == 2 else call.keywords[0].value if call.keywords else None
+                if isinstance(result, tuple) and result[:1] == ("@raise",) and default is not None:
+                    result = ev.eval(default, env)
         elif isinstance(f, ast.Attribute) and f.attr == "__anext__" and not call.args:
             it = ev.eval(f.value, env)
             if self._is_iter(it):
